@@ -476,7 +476,7 @@ func c10Apply(x *c10MCtx, e *c10Env, opIdx int, op c10Op, created []string) (ret
 		if op.F != 0 && !e.manager {
 			return HUH, true, 0, ""
 		}
-		at := 201 + uint64(op.L)
+		at := c10Thr(2, 81+uint64(op.L), op.F) // the child's threshold, with the gratis offset f it is created with
 		if a.Bal < at || a.Bal-at < a.threshold() {
 			return CASH, true, 0, ""
 		}
@@ -489,7 +489,7 @@ func c10Apply(x *c10MCtx, e *c10Env, opIdx int, op c10Op, created []string) (ret
 			name, known = c10Name(op.I), true
 		}
 		ch := c10CodeHashOfNew(opIdx)
-		x.Accts[name] = &c10MAcct{CodeHash: ch, Bal: at, G: op.G, M: op.M, Created: e.timeslot, Parent: e.self,
+		x.Accts[name] = &c10MAcct{CodeHash: ch, Bal: at, G: op.G, M: op.M, Gratis: op.F, Created: e.timeslot, Parent: e.self,
 			Sto: map[string][]byte{}, Lk: map[c10Lk][]uint32{{H: ch, Z: op.L}: {}}, Pre: map[[32]byte][]byte{}}
 		a.Bal -= at
 		return uint64(op.I), known, 0, name
